@@ -203,8 +203,8 @@ impl Sched {
 pub static PANICS: std::sync::atomic::AtomicU64 = std::sync::atomic::AtomicU64::new(0);
 pub static LAST_PANIC: std::sync::Mutex<String> = std::sync::Mutex::new(String::new());
 
-/// Points between an operation's `is_closed` check and its send: not scheduling points of the model
-/// (the interleaved suites pass through them); the parallel `stress` suite stretches them (`Chaos`).
+/// Points between an operation's `is_closed` check and its send (scheduling points like the others in
+/// the interleaved suites); the parallel `stress` suite always stretches them (`Chaos`).
 pub fn is_check_window(name: &str) -> bool {
     name.ends_with(":after_check")
 }
@@ -239,9 +239,6 @@ impl stretto::verif::Hooks for Chaos {
 
 impl stretto::verif::Hooks for Sched {
     fn yield_point(&self, name: &'static str) {
-        if is_check_window(name) {
-            return;
-        }
         let a = Sched::actor_of(name);
         let mut g = self.inner.lock().unwrap();
         let my_gen = match GEN.with(|c| c.get()) {
